@@ -1,14 +1,32 @@
 (* C10  Comments, spacing and line layout do not change a program's meaning.
    Proved here: the two generated line-break tables of tokenizer.rs are exactly the sets the
-   property describes (tokens that can end / start an expression, `;` counting as both). The layout
-   characterisation (`layout_ok`) is evaluated on the implementation's tokens, and the re-layout
+   property describes (tokens that can end / start an expression, `;` counting as both), and for
+   EVERY input the tokens of a successful tokenization obey the line-break rule (`layout_ok`: a
+   terminator stands between tokens a and b exactly when the text between them contains a line
+   break, a can end an expression and b can start one; none leads, trails or repeats) - so comments,
+   blanks and the number or placement of line breaks elsewhere cannot influence the token list beyond
+   positions. `layout_ok` is also evaluated on the implementation's tokens, and the re-layout
    relation is checked on the implementation directly. *)
 From Coq Require Import List ZArith NArith Bool.
 Import ListNotations.
-Require Import Gram.Model.Token Gram.Gen.TokenTables Gram.Model.Tokenizer Gram.Spec.TokenSpec Gram.Proofs.TokenizerProofs.
+Require Import Gram.Model.Token Gram.Gen.TokenTables Gram.Model.Tokenizer Gram.Spec.TokenSpec Gram.Proofs.TokenizerProofs Gram.Proofs.PartitionProofs Gram.Proofs.LayoutProofs.
 
-Definition C10_layout_statement : Prop :=
-  forall gend cs ts, tokenize gend cs = Ok ts -> layout_ok cs ts = true.
+Theorem C10_layout : forall gend cs ts,
+  Forall ch_wf cs -> tokenize gend cs = Ok ts -> layout_ok cs ts = true.
+Proof. exact tokenize_layout. Qed.
+Check C10_layout : forall gend cs ts, Forall ch_wf cs -> tokenize gend cs = Ok ts -> layout_ok cs ts = true.
+Print Assumptions C10_layout.
+
+(* non-vacuity: a text with a comment, a line break that terminates and one that does not *)
+Example C10_layout_example :
+  let cs := map asc [120; 32; 35; 99; 10; 43; 10; 121; 10; 122; 10]%N in   (* "x #c\n+\ny\nz\n" *)
+  Forall ch_wf cs /\
+  match tokenize (fun i => i + 1) cs with
+  | Ok ts => map (fun t => kind_of (tv t)) ts = [KIdentifier; KPlus; KIdentifier; KLineBreak; KIdentifier]
+  | _ => False end.
+Proof.
+  split; [repeat constructor; apply asc_wf; reflexivity | vm_compute; reflexivity].
+Qed.
 
 Theorem C10_linebreak_tables_are_spec :
   forallb (fun k => Bool.eqb (kind_lookup ends_table k) (in_kinds E_spec k)) all_kinds = true /\
